@@ -1,6 +1,6 @@
 import Driver.Util
 open Lean Replicat
-namespace Driver
+namespace Driver.HSigV4
 open Replicat.SigV4
 
 def realCrypto : Crypto where
@@ -142,4 +142,6 @@ def handleSigV4 (op : String) (j : Json) : Except String Json := do
     | k => throw s!"unknown payload kind {k}"
   | _ => throw s!"unknown op {op}"
 
-end Driver
+end Driver.HSigV4
+
+def Driver.handleSigV4 := Driver.HSigV4.handleSigV4
